@@ -798,6 +798,12 @@ impl Running {
     async fn settle(&self) {
         const K: usize = 48;
         let mut rounds = 0usize;
+        // every wait of the harness is bounded in REAL time as well: on the unchanged tree a settle
+        // takes milliseconds; a wait that outlives these bounds means that nothing can make progress
+        // any more (an engine that should have stopped keeps running, a task died in the middle of an
+        // event, ...). The case then ends with `panic` / `# panicmsg settle-no-quiescence-...` at once
+        // instead of spinning through the round budget (minutes per case)
+        let started = std::time::Instant::now();
         loop {
             for _ in 0..K {
                 tokio::task::yield_now().await;
@@ -816,11 +822,18 @@ impl Running {
                         // audit and the execution shutdowns - wait for the task to have returned
                         // (the model treats "stopped" and "receiver dropped" as one step)
                         let mut spins = 0usize;
+                        let wait_started = std::time::Instant::now();
                         while !self.engine_finished() {
                             tokio::task::yield_now().await;
                             std::thread::sleep(std::time::Duration::from_micros(20));
                             spins += 1;
-                            assert!(spins < 2_000_000, "engine did not stop after an unrecoverable error");
+                            // the tick is complete (its audit has been built): a runner that stops does
+                            // so within microseconds; one that is still running after seconds of real
+                            // time went on to wait for the next feed event, i.e. did not stop
+                            assert!(
+                                spins < 2_000_000 && wait_started.elapsed() < std::time::Duration::from_secs(3),
+                                "settle: no quiescence (engine did not stop after an unrecoverable error)"
+                            );
                         }
                         for _ in 0..K {
                             tokio::task::yield_now().await;
@@ -828,11 +841,19 @@ impl Running {
                     }
                     return;
                 }
+                // the engine task has ended in the MIDDLE of an event (the event was handed to the
+                // clock, its audit was never built): it panicked. Nothing after this is observable
+                if self.engine_finished() && self.log_len() > self.done() && self.done() == processed {
+                    panic!("settle: no quiescence (engine task panicked)");
+                }
             } else if self.iterator {
                 std::thread::sleep(std::time::Duration::from_micros(50));
             }
             rounds += 1;
-            assert!(rounds < 400_000, "settle: no quiescence");
+            assert!(
+                rounds < 400_000 && started.elapsed() < std::time::Duration::from_secs(10),
+                "settle: no quiescence"
+            );
         }
     }
 
@@ -1141,19 +1162,47 @@ fn run_case(case: &Case, lines: &mut Vec<String>) {
                         "shutdown" | "abort" | "join" => {
                             let system = r.system.take().unwrap();
                             let how = op[0].clone();
-                            let fut = async move {
-                                match how.as_str() {
-                                    "shutdown" => system.shutdown().await,
-                                    "abort" => system.abort().await,
-                                    _ => {
-                                        let System { engine, handles, feed_tx: _, audit: _ } = system;
-                                        let out = engine.await;
-                                        handles.abort();
-                                        out
+                            // real-time watchdog: if shutdown() / abort() / the join handle do not
+                            // return (an engine that never processes the Shutdown, an execution task
+                            // that is never told to stop), the case ends with `panic` instead of
+                            // hanging. A pending receiver does not keep the paused clock from
+                            // auto-advancing, so the awaited future is scheduled exactly as before
+                            let (wd_tx, wd_rx) = tokio::sync::oneshot::channel::<()>();
+                            let wd_done = Arc::new(std::sync::atomic::AtomicBool::new(false));
+                            let wd_flag = Arc::clone(&wd_done);
+                            std::thread::spawn(move || {
+                                let t0 = std::time::Instant::now();
+                                while !wd_flag.load(Ordering::SeqCst) {
+                                    if t0.elapsed() > std::time::Duration::from_secs(10) {
+                                        let _ = wd_tx.send(());
+                                        return;
                                     }
+                                    std::thread::sleep(std::time::Duration::from_millis(5));
+                                }
+                            });
+                            let fut = async move {
+                                let work = async move {
+                                    match how.as_str() {
+                                        "shutdown" => system.shutdown().await,
+                                        "abort" => system.abort().await,
+                                        _ => {
+                                            let System { engine, handles, feed_tx: _, audit: _ } = system;
+                                            let out = engine.await;
+                                            handles.abort();
+                                            out
+                                        }
+                                    }
+                                };
+                                tokio::pin!(work);
+                                tokio::select! {
+                                    biased;
+                                    out = &mut work => out,
+                                    Ok(()) = wd_rx => panic!("settle: no quiescence (shutdown / abort / join does not return)"),
                                 }
                             };
-                            match AssertUnwindSafe(fut).catch_unwind().await {
+                            let closed = AssertUnwindSafe(fut).catch_unwind().await;
+                            wd_done.store(true, Ordering::SeqCst);
+                            match closed {
                                 Err(_) => lines.push("panic".into()),
                                 Ok(Err(e)) => lines.push(format!("res joinerr {}", e.is_panic() as u8)),
                                 Ok(Ok((engine, audit))) => {
